@@ -267,11 +267,21 @@ def run_case(ctx, case):
         return
     from job_shop_lib import Schedule, ScheduledOperation
     run = Run(inst)
+    if case["seed"] % 3 == 0:
+        # the dispatcher was used before: an abandoned episode with clock / start-time queries
+        for _ in range(rng.randint(1, run.r.num_ops)):
+            o, m = run.choose(rng, "random_ready")
+            run.dispatch(o, m)
+            run.d.current_time()
+            for op in run.d.raw_ready_operations():
+                run.d.earliest_start_time(op)
+        run.d.reset(); run.r.reset()
+        ctx.count("solved_on_a_reused_dispatcher")
     while not run.done():
         o, m = run.choose(rng, rng.choice(["random_ready", "latest_start", "one_job_first", "round_robin"]))
         run.dispatch(o, m)
     S = run.d.schedule
-    check_solved(ctx, r, S, run.r.makespan(), True, "dispatcher-built")
+    check_solved(ctx, r, S, S.makespan(), True, "dispatcher-built")
     ctx.count("solved_dispatcher_built")
     # hand-delayed but feasible schedule: every start shifted by a non-decreasing amount in time
     shift = rng.randint(1, 5)
